@@ -9,7 +9,7 @@ MODULES = ["PdsVerif.Props.C02"]
 MODEL_MODULES = ["PdsVerif.Model.StftDrv"]
 REQUIRED = ["PdsVerif.C02." + n for n in [
     "full_short", "full_count", "full_frame_spec", "full_frames_length", "frame_origin", "walk_covers",
-    "walk_idx_in_range", "walk_bins_distinct", "full_spectrum_sum", "walk_real_within_half", "real_doubling", "default_len_bin"]]
+    "walk_idx_in_range", "walk_bins_distinct", "full_spectrum_sum", "walk_sum_eq_full_spectrum", "walk_real_within_half", "real_doubling", "default_len_bin"]]
 RULE = (
     "walk: (DFT size D in 2..67 (all residues mod 4), start bin < D, truncated length <= D, integer/gaussian-integer taps) "
     "driven through the public STFT computer with a SpecBank tracer and a signal irfft(A) of integer magnitudes A, "
@@ -105,7 +105,7 @@ def run(ctx, driver):
             if g is None or not common.close(g, want, rel=1e-9, abs_=1e-7):
                 ctx.violation(dict(case, use_power=power), want, g,
                               "coefficient == sum over the full DFT spectrum of |X*H|^p, H rebuilt from the truncated response",
-                              tags=dict(clause="full_spectrum_sum", Dmod4=D % 4))
+                              tags=dict(clause="full_spectrum_sum", "walk_sum_eq_full_spectrum", Dmod4=D % 4))
         # correspondence: model hits -> expected integer
         if mo in ("bad-op",):
             ctx.mismatch(case, mo, vals[False], "driver rejected")
